@@ -1,6 +1,7 @@
 import Panacea.Lemmas.AolCount
 import Panacea.Lemmas.Paginate
 import Panacea.Properties.C18
+import Panacea.Properties.C01
 /-!
 # C13 — AOL counters and listings equal the real contents, with no cross-talk
 
